@@ -152,3 +152,38 @@ func VerifC02_KeeperFlush() {
 	zz.Assert(bank.get(c02kMod(types.ModuleName)).IsZero(), "nothing is left in the evm module account")
 	zz.Reach("end")
 }
+
+// VerifC05_KeeperWriteBack: what the StateDB writes back is exactly what the keeper stores. After a mid-transaction flush
+// (every stateful precompile begins with one) a reverted frame is undone by writing the restored - lower - nonce and the
+// restored balance back; so SetAccount must store any nonce and balance it is given, whatever is stored already, and
+// GetAccount must read the same values back.
+func VerifC05_KeeperWriteBack() {
+	env := zz.NewEnv([]string{"evm"}, []string{"transient_evm"})
+	bank := &c02kBank{bal: map[string]sdkmath.Int{}, supply: sdk.ZeroInt()}
+	ak := &c02kAK{accs: map[string]authtypes.AccountI{}}
+	k := &Keeper{cdc: zz.Codec(), storeKey: env.Key("evm"), transientKey: env.Key("transient_evm"), bankKeeper: bank, accountKeeper: ak}
+	p := types.DefaultParams()
+	p.ActivePrecompiles = nil
+	if err := k.SetParams(env.Ctx, p); err != nil {
+		panic(err)
+	}
+	a := sdk.AccAddress(c02kA.Bytes())
+	bal0 := zz.AnyAmount("stored.balance", 128)
+	bank.bal[string(a)], bank.supply = bal0, bal0
+	if zz.AnyBool("accountExists") {
+		acc := ak.NewAccountWithAddress(env.Ctx, a)
+		_ = acc.SetSequence(zz.AnyUint64("stored.nonce"))
+		ak.accs[string(a)] = acc
+		zz.Reach("?existing")
+	}
+	n := zz.AnyUint64("written.nonce")
+	b := zz.AnyAmount("written.balance", 128)
+	code := common.Hash{byte(zz.Choose("written.codeHash", 2))}
+	zz.Assert(k.SetAccount(env.Ctx, c02kA, statedb.Account{Nonce: n, Balance: b.BigInt(), CodeHash: code.Bytes()}) == nil, "the write-back succeeds")
+	got := k.GetAccount(env.Ctx, c02kA)
+	zz.Assert(got != nil, "the written account exists")
+	zz.Assert(got.Nonce == n, "the stored nonce is exactly the nonce written back (also when it is lower than before)")
+	zz.Assert(got.Balance.Cmp(b.BigInt()) == 0, "the stored balance is exactly the balance written back")
+	zz.Assert(common.BytesToHash(got.CodeHash) == code, "the stored code hash is exactly the one written back")
+	zz.Reach("end")
+}
